@@ -66,8 +66,8 @@ var tiers = map[string]map[string]tierCfg{
 		"thorough": {Runs: 1200, Workers: 16, WorkerTimeout: 3 * time.Hour},
 	},
 	"C12": {
-		"quick":    {Runs: 96, Workers: 16, WorkerTimeout: 8 * time.Minute, Race: true, PerRunProcess: true},
-		"thorough": {Runs: 4000, Workers: 16, WorkerTimeout: 3 * time.Hour, Race: true, PerRunProcess: true},
+		"quick":    {Runs: 192, Workers: 16, WorkerTimeout: 8 * time.Minute, Race: true, PerRunProcess: true},
+		"thorough": {Runs: 4000, Workers: 16, WorkerTimeout: 3 * time.Hour, Race: true, PerRunProcess: true, Instrument: true},
 	},
 }
 
@@ -160,6 +160,15 @@ func realMain() int {
 		"CGO_ENABLED=1",
 	)
 	fmt.Printf("check %s tier=%s VERIF_SEED=%d runs=%d workers=%d\n", prop, *tier, seed, tc.Runs, tc.Workers)
+	if *replay != "" {
+		// a replay file recorded under the instrumented build needs it again
+		if b, err := os.ReadFile(*replay); err == nil {
+			var sc sim.Scenario
+			if json.Unmarshal(b, &sc) == nil && sc.C12 != nil {
+				d.cfg.Instrument = sc.C12.Instr
+			}
+		}
+	}
 	if err := d.build(); err != nil {
 		trouble("build: %v", err)
 		return 2
@@ -200,42 +209,76 @@ func (d *driver) run(dir string, timeout time.Duration, extraEnv []string, name 
 	}
 }
 
-// build compiles the harness (and the CLI) from /repo's current working tree.
+// build compiles the harness (and the CLI) from the repository's current
+// working tree: /repo, or $VERIF_REPO for sweeps over scratch copies.
 func (d *driver) build() error {
 	t0 := time.Now()
-	simSrc := simDir
+	repo := repoDir
+	if r := os.Getenv("VERIF_REPO"); r != "" {
+		repo = r
+	}
 	d.bin = filepath.Join(d.scratch, "sim.test")
 	args := []string{"test", "-c", "-o", d.bin}
 	if d.cfg.Race {
 		args = append(args, "-race")
 	}
-	modfile := ""
+	target := repo
 	if d.cfg.Instrument {
-		inst, mf, err := d.instrument()
+		inst, err := d.instrument(repo)
 		if err != nil {
 			return fmt.Errorf("instrument: %w", err)
 		}
-		d.extra["instrumented"] = inst
-		modfile = mf
+		target = inst
+		args = append(args, "-tags", "verifinstr")
 	}
-	if modfile != "" {
-		args = append(args, "-modfile="+modfile)
+	if target != repoDir {
+		// same go.mod, other replace target
+		mod, err := os.ReadFile(filepath.Join(simDir, "go.mod"))
+		if err != nil {
+			return err
+		}
+		alt := strings.Replace(string(mod), "=> "+repoDir, "=> "+target, 1)
+		if alt == string(mod) {
+			return fmt.Errorf("go.mod has no replace => %s", repoDir)
+		}
+		mf := filepath.Join(d.scratch, "alt.mod")
+		if err := os.WriteFile(mf, []byte(alt), 0o644); err != nil {
+			return err
+		}
+		sum, _ := os.ReadFile(filepath.Join(simDir, "go.sum"))
+		os.WriteFile(filepath.Join(d.scratch, "alt.sum"), sum, 0o644)
+		args = append(args, "-modfile="+mf)
 	}
 	args = append(args, ".")
-	out, err := d.run(simSrc, 20*time.Minute, nil, goBin, args...)
+	out, err := d.run(simDir, 20*time.Minute, nil, goBin, args...)
 	if err != nil {
 		return fmt.Errorf("go test -c failed: %v\n%s", err, out)
 	}
 	if d.cfg.CLI {
 		d.cli = filepath.Join(d.scratch, "nfpm")
-		out, err := d.run(repoDir, 20*time.Minute, nil, goBin, "build", "-o", d.cli, "./cmd/nfpm")
+		out, err := d.run(repo, 20*time.Minute, nil, goBin, "build", "-o", d.cli, "./cmd/nfpm")
 		if err != nil {
 			return fmt.Errorf("go build ./cmd/nfpm failed: %v\n%s", err, out)
 		}
 		d.extra["cli"] = d.cli
 	}
-	fmt.Printf("built harness from %s in %.1fs\n", repoDir, time.Since(t0).Seconds())
+	fmt.Printf("built harness from %s in %.1fs\n", target, time.Since(t0).Seconds())
 	return nil
+}
+
+// instrument copies the repository to scratch and inserts scheduler yield
+// points with cmd/instr. Returns the copy's path.
+func (d *driver) instrument(repo string) (string, error) {
+	dst := filepath.Join(d.scratch, "repo-instr")
+	if out, err := d.run("/", 5*time.Minute, nil, "rsync", "-a", "--exclude", ".git", "--exclude", "www", repo+"/", dst+"/"); err != nil {
+		return "", fmt.Errorf("rsync: %v\n%s", err, out)
+	}
+	out, err := d.run(simDir, 10*time.Minute, nil, goBin, "run", "./cmd/instr", dst)
+	if err != nil {
+		return "", fmt.Errorf("instr: %v\n%s", err, out)
+	}
+	fmt.Print(string(out))
+	return dst, nil
 }
 
 type workerArgs struct {
